@@ -17,9 +17,12 @@ import time
 
 from vlib import core, corr
 
-DEPENDS = ["RangeSet", "StreamRecv", "StreamSend", "StreamSpec", "NetSys", "C10", "C01"]
+DEPENDS = ["RangeSet", "StreamRecv", "StreamSend", "StreamSpec", "NetSys", "NetSysLive", "C10", "C01"]
 TRUSTED_BASE = [
-    "extraction (ExtrOcamlBasic only; Z kept as the extracted inductive) + coq/extract/driver.ml for running exec_netsys",
+    "extraction (ExtrOcamlBasic only; Z kept as the extracted inductive) + coq/extract/driver.ml for running exec_netsys "
+    "and exec_netsys_complete",
+    "PyNet in harness/props/c01.py: the NetSys glue (enabledness, event queue) re-implemented around the real stream halves "
+    "for the function-level suites",
     "harness/sim (virtual-time network, driver loop mirroring aioquic.asyncio, wire observer using aioquic's own "
     "CryptoContext for decryption, independent frame parser) and the projection in harness/props/c01.py",
     "the qlog extension point (a QuicLogger subclass) is trusted to report packet_sent / packet_received / packet_lost "
@@ -30,8 +33,10 @@ TRUSTED_BASE = [
 ASSUMPTIONS = [
     "NetSys: every frame returned by get_frame joins `emitted` and every emitted frame gets at most one outcome, ACKED only "
     "after it was handed to the receiver (C08 callbacks_at_most_once, C12 ack soundness) -- checked on every replayed trace",
-    "liveness (everything written is eventually delivered) is proved only as nothing_forgotten + fair_schedule_completes over "
-    "the model; under the real timers it is observed on the explored runs, not proved",
+    "liveness (everything written is eventually delivered) is proved only over the model: nothing_forgotten, "
+    "fair_schedule_completes (explicit bounded continuation from every reachable state), schedule_accounting / "
+    "fair_rounds_complete / fair_round_exists (any schedule with unacked-many useful acknowledgements completes, and one is "
+    "always possible); under the real timers it is observed on the explored runs, not proved",
 ]
 
 NO_CLOSE_CODES = ()
@@ -889,6 +894,354 @@ def _short_sc(sc, full=False):
     return d
 
 
+
+# ======================================================================================
+# function-level tie: the two real stream halves joined by the NetSys glue, every step kind (resets included),
+# and the completing continuation computed by the extracted model (`exec_netsys_complete` = Coq's `live_complete`,
+# the function of fair_schedule_completes_thm / reset_completes_thm) replayed on the real halves
+# ======================================================================================
+class PyNet:
+    """coq/model/NetSys.v with the real QuicStreamSender / QuicStreamReceiver inside.  The glue (which op is enabled,
+    queue an event unless the receive half had finished before) is the model's; the halves are the implementation."""
+
+    def __init__(self):
+        from aioquic.quic.stream import QuicStreamReceiver, QuicStreamSender
+        self.s = QuicStreamSender(stream_id=0, writable=True)
+        self.r = QuicStreamReceiver(stream_id=0, readable=True)
+        self.emitted = []          # [off, data, fin, delivered, outcome]
+        self.resets = []
+        self.queue = []
+        self.written = bytearray()
+        self.fin = False
+        self.reset = False
+        self.rreset = False
+        self.racked = False
+        # what the application has been told (for the oracle)
+        self.reported = bytearray()
+        self.ends = 0
+        self.stream_resets = 0
+        self.fse = 0
+        self.after_terminal = 0
+
+    def enabled(self, op):
+        k = op[0]
+        if k == "w":
+            return not self.fin and not self.reset
+        if k == "e":
+            return not self.reset
+        if k == "d":
+            return 0 <= op[1] < len(self.emitted)
+        if k == "o":
+            return 0 <= op[1] < len(self.emitted) and self.emitted[op[1]][4] is None and (not op[2] or self.emitted[op[1]][3])
+        if k == "er":
+            return self.reset
+        if k == "dr":
+            return 0 <= op[1] < len(self.resets)
+        if k == "ro":
+            return bool(self.resets)
+        if k == "p":
+            return bool(self.queue)
+        return True       # r, s
+
+    def _report(self, was_finished, ev):
+        from aioquic.quic import events
+        if ev is None or was_finished:
+            return
+        if self.ends or self.stream_resets:
+            self.after_terminal += 1
+        self.queue.append(ev)
+        if isinstance(ev, events.StreamDataReceived):
+            self.reported += ev.data
+            self.ends += int(ev.end_stream)
+        else:
+            self.stream_resets += 1
+
+    def step(self, op):
+        from aioquic.quic import events
+        from aioquic.quic.packet import QuicStreamFrame
+        from aioquic.quic.packet_builder import QuicDeliveryState
+        from aioquic.quic.stream import FinalSizeError
+        if not self.enabled(op):
+            return [9]
+        k = op[0]
+        if k == "w":
+            data = bytes.fromhex(op[1])
+            self.s.write(data, end_stream=bool(op[2]))
+            self.written += data
+            self.fin = self.fin or bool(op[2])
+            return [0]
+        if k == "e":
+            f = self.s.get_frame(op[1], op[2])
+            if f is None:
+                return [0]
+            self.emitted.append([f.offset, bytes(f.data), bool(f.fin), False, None])
+            return [1, f.offset, int(f.fin), len(f.data)] + list(f.data)
+        if k == "d":
+            e = self.emitted[op[1]]
+            was = self.r.is_finished
+            try:
+                ev = self.r.handle_frame(QuicStreamFrame(offset=e[0], data=e[1], fin=e[2]))
+            except FinalSizeError:
+                self.fse += 1
+                return [2]
+            e[3] = True
+            self._report(was, ev)
+            return [0]
+        if k == "o":
+            e = self.emitted[op[1]]
+            self.s.on_data_delivery(QuicDeliveryState.ACKED if op[2] else QuicDeliveryState.LOST, e[0], e[0] + len(e[1]), e[2])
+            e[4] = bool(op[2])
+            return [0]
+        if k == "r":
+            self.s.reset(op[1])
+            self.reset = True
+            return [0]
+        if k == "er":
+            fr = self.s.get_reset_frame()
+            self.resets.append(fr.final_size)
+            return [4, fr.final_size]
+        if k == "dr":
+            was = self.r.is_finished
+            try:
+                ev = self.r.handle_reset(final_size=self.resets[op[1]], error_code=7)
+            except FinalSizeError:
+                self.fse += 1
+                return [2]
+            self.rreset = True
+            self._report(was, ev)
+            return [0]
+        if k == "ro":
+            self.s.on_reset_delivery(QuicDeliveryState.ACKED if op[1] else QuicDeliveryState.LOST)
+            self.racked = self.racked or bool(op[1])
+            return [0]
+        if k == "p":
+            ev = self.queue.pop(0)
+            if isinstance(ev, events.StreamDataReceived):
+                return [5, int(ev.end_stream), len(ev.data)] + list(ev.data)
+            return [6]
+        return [7, len(self.queue)]
+
+
+def hv_tokens(ops):
+    out = []
+    for op in ops:
+        k = op[0]
+        if k == "w":
+            d = bytes.fromhex(op[1])
+            out += [0, int(op[2]), len(d)] + list(d)
+        elif k == "e":
+            out += [1, op[1]] + ([0] if op[2] is None else [1, op[2]])
+        elif k == "d":
+            out += [2, op[1]]
+        elif k == "o":
+            out += [3, op[1], int(op[2])]
+        elif k == "r":
+            out += [4, op[1]]
+        elif k == "er":
+            out += [5]
+        elif k == "dr":
+            out += [6, op[1]]
+        elif k == "ro":
+            out += [7, int(op[1])]
+        elif k == "p":
+            out += [8]
+        else:
+            out += [9]
+    return out
+
+
+def hv_parse(toks):
+    """inverse of hv_tokens (the output of exec_netsys_complete)"""
+    ops, i = [], 0
+    while i < len(toks):
+        k = toks[i]
+        if k == 0:
+            n = toks[i + 2]
+            ops.append(["w", bytes(toks[i + 3:i + 3 + n]).hex(), int(toks[i + 1])])
+            i += 3 + n
+        elif k == 1:
+            if toks[i + 2] == 0:
+                ops.append(["e", toks[i + 1], None])
+                i += 3
+            else:
+                ops.append(["e", toks[i + 1], toks[i + 3]])
+                i += 4
+        elif k == 2:
+            ops.append(["d", toks[i + 1]])
+            i += 2
+        elif k == 3:
+            ops.append(["o", toks[i + 1], int(toks[i + 2])])
+            i += 3
+        elif k == 4:
+            ops.append(["r", toks[i + 1]])
+            i += 2
+        elif k == 5:
+            ops.append(["er"])
+            i += 1
+        elif k == 6:
+            ops.append(["dr", toks[i + 1]])
+            i += 2
+        elif k == 7:
+            ops.append(["ro", int(toks[i + 1])])
+            i += 2
+        elif k == 8:
+            ops.append(["p"])
+            i += 1
+        else:
+            ops.append(["s"])
+            i += 1
+    return ops
+
+
+def hv_all_ops(case):
+    return list(case["ops"]) + list(case.get("completion") or [])
+
+
+def hv_encode(case):
+    return hv_tokens(hv_all_ops(case))
+
+
+def hv_impl(case):
+    net = PyNet()
+    out = []
+    for op in hv_all_ops(case):
+        out += net.step(op)
+    return out
+
+
+def hv_oracle(case):
+    """The property sentence on the real halves, independent of the model: prefix delivery, end marker at most once and only
+    after everything, no FinalSizeError from the sender's own frames, StreamReset at most once and nothing after a terminal
+    event, RESET_STREAM final size, is_finished only when justified; for `live` cases: the continuation completes the stream
+    within the proved length bound."""
+    net = PyNet()
+    ops = hv_all_ops(case)
+    n_prefix = len(case["ops"])
+    emitted_at_prefix = None
+    for i, op in enumerate(ops):
+        if i == n_prefix:
+            emitted_at_prefix = len(net.emitted)
+        net.step(op)
+        where = "op %d %s" % (i, op[0])
+        if net.fse:
+            return ("FinalSizeError from a frame the sender itself produced (%s)" % where, {"defect": "halves_final_size_error"})
+        if bytes(net.written[:len(net.reported)]) != bytes(net.reported):
+            return ("reported bytes are not a prefix of the written bytes (%s)" % where, {"defect": "halves_not_prefix"})
+        if net.ends > 1 or (net.ends == 1 and not (net.fin and len(net.reported) == len(net.written))):
+            return ("end marker reported %d times / before everything (%s)" % (net.ends, where), {"defect": "halves_end_marker"})
+        if net.stream_resets > 1 or net.after_terminal:
+            return ("event reported after the terminal event (%s)" % where, {"defect": "halves_after_terminal"})
+        hi = net.s.highest_offset
+        if hi > len(net.written) or any(e[0] + len(e[1]) > hi for e in net.emitted) or any(fs != hi for fs in net.resets):
+            return ("highest_offset / RESET_STREAM final size unsound (%s)" % where, {"defect": "halves_final_size"})
+        if net.s.is_finished and not (net.racked or (net.ends == 1 and bytes(net.reported) == bytes(net.written))):
+            return ("sender is_finished before delivery / acknowledged reset (%s)" % where, {"defect": "halves_finished_early"})
+    if case.get("live"):
+        if emitted_at_prefix is None:
+            emitted_at_prefix = len(net.emitted)
+        comp = case.get("completion") or []
+        if net.reset:
+            ok = net.s.is_finished and net.r.is_finished and net.rreset and len(comp) == 3
+        else:
+            ok = (bytes(net.reported) == bytes(net.written) and net.ends == int(net.fin) and net.s.is_finished == net.fin
+                  and all(e[4] is not None for e in net.emitted)
+                  and len(comp) <= emitted_at_prefix + 3 * (len(net.written) + 1))
+        if not ok:
+            return ("the completing continuation (%d steps) does not complete the stream on the real halves: reported %d of %d "
+                    "bytes, ends %d, sender finished %s" % (len(comp), len(net.reported), len(net.written), net.ends, net.s.is_finished),
+                    {"defect": "halves_not_completed"})
+    return None
+
+
+def hv_gen(rng, n, big=False, resets=True):
+    """random schedules driven by the live state of the real halves: mostly enabled steps, every step kind, duplicates,
+    reordering, losses, resets at any time, a few steps that are not enabled"""
+    cases = []
+    for _ in range(n):
+        net = PyNet()
+        ops = []
+        want_reset = resets and rng.random() < 0.45
+        reset_at = rng.randint(0, 15)
+        for step in range(rng.randint(1, 60 if big else 30)):
+            ne = len(net.emitted)
+            cand = [i for i, e in enumerate(net.emitted) if e[4] is None]
+            menu = [(1, "wild"), (1, "sync")]
+            if not net.fin and not net.reset:
+                menu.append((5, "write"))
+            if not net.reset:
+                menu.append((8, "emit"))
+            if ne:
+                menu.append((7, "deliver"))
+            if cand:
+                menu.append((6, "outcome"))
+            if want_reset and not net.reset and step >= reset_at:
+                menu.append((6, "reset"))
+            if net.reset:
+                menu += [(3, "emit_reset"), (1, "reset")]
+            if net.resets:
+                menu += [(4, "deliver_reset"), (2, "reset_outcome")]
+            if net.queue:
+                menu.append((3, "pop"))
+            kind = rng.choices([m[1] for m in menu], weights=[m[0] for m in menu])[0]
+            if kind == "wild":                                                      # possibly not enabled
+                op = rng.choice([["d", ne + rng.randint(0, 2)], ["o", rng.randint(0, max(0, ne)), 1], ["er"], ["dr", len(net.resets)],
+                                 ["ro", 1], ["p"], ["w", "aa", 0], ["e", 5, None], ["o", rng.randint(0, max(0, ne)), 0]])
+            elif kind == "write":
+                size = rng.choice([0, 1, 1, 2, 3, 5, 8, 13, 40] + ([300] if big else []))
+                op = ["w", bytes(rng.randrange(256) for _ in range(size)).hex(), int(rng.random() < 0.3)]
+            elif kind == "emit":
+                mo = None if rng.random() < 0.8 else rng.randint(0, len(net.written) + 2)
+                op = ["e", rng.choice([1, 1, 2, 3, 5, 8, 64, 1200]), mo]
+            elif kind == "deliver":
+                op = ["d", rng.randrange(ne)]
+            elif kind == "outcome":
+                i = rng.choice(cand)
+                op = ["o", i, int(net.emitted[i][3] and rng.random() < 0.6)]
+            elif kind == "reset":
+                op = ["r", rng.randint(0, 9)]
+            elif kind == "emit_reset":
+                op = ["er"]
+            elif kind == "deliver_reset":
+                op = ["dr", rng.randrange(len(net.resets))]
+            elif kind == "reset_outcome":
+                op = ["ro", int(rng.random() < 0.5)]
+            elif kind == "pop":
+                op = ["p"]
+            else:
+                op = ["s"]
+            net.step(op)
+            ops.append(op)
+        cases.append({"ops": ops})
+    return cases
+
+
+def hv_with_completion(cases, rng):
+    """ask the extracted model for the completing continuation of each prefix (Coq: live_complete ms state)"""
+    for c in cases:
+        c["ms"] = rng.choice([1, 2, 3, 7, 64, 1200])
+        c["live"] = True
+    outs = core.run_model("exec_netsys_complete", [[c["ms"]] + hv_tokens(c["ops"]) for c in cases])
+    for c, o in zip(cases, outs):
+        c["completion"] = hv_parse(o)
+    return cases
+
+
+def hv_rebuild(case, ops):
+    c = {"ops": list(ops)}
+    if case.get("live"):
+        c["ms"], c["live"] = case["ms"], True
+        c["completion"] = hv_parse(core.run_model("exec_netsys_complete", [[c["ms"]] + hv_tokens(c["ops"])], shards=1)[0])
+    return c
+
+
+def hv_suites(ctx):
+    nontrivial = lambda c, out: any(o[0] == "w" and o[1] for o in c["ops"]) and any(o[0] == "d" for o in hv_all_ops(c))
+    plain = corr.Suite(ctx, "halves", "exec_netsys", hv_encode, hv_impl, hv_oracle, lambda c: c["ops"], hv_rebuild,
+                       nontrivial=nontrivial, opname=lambda o: o[0])
+    live = corr.Suite(ctx, "halves-live", "exec_netsys", hv_encode, hv_impl, hv_oracle, lambda c: c["ops"], hv_rebuild,
+                      nontrivial=nontrivial, opname=lambda o: o[0])
+    return plain, live
+
 # ======================================================================================
 # driver
 # ======================================================================================
@@ -924,14 +1277,25 @@ def run(ctx):
         suite.run(cases, "single-fault")
         exhaustive.append({"script": name, "datagrams": n_after, "placements": len(cases)})
     suite.report()
+    # 5. function-level: the real stream halves under the NetSys glue, every step kind (resets included), and the
+    #    completing continuation of fair_schedule_completes / reset_completes computed by the extracted model
+    plain, live = hv_suites(ctx)
+    plain.run(corr.load_corpus("C01", plain.name), "corpus")
+    plain.run(hv_gen(rng, ctx.n(1500, 40000), big=ctx.thorough), "random")
+    live_corpus = corr.load_corpus("C01", live.name)
+    live.run(live_corpus, "corpus")
+    live.run(hv_with_completion(hv_gen(rng, ctx.n(800, 20000), big=ctx.thorough), rng), "random")
     cov = corr.merge_coverage(
-        [suite],
+        [suite, plain, live],
         "end-to-end runs of two real QuicConnections under harness/sim: application scripts (<= 6 streams, bidi/uni, both "
         "directions, writes 0-40 KiB, FIN / reset / stop, ping, key update, CID change, client rebind) x per-datagram fates "
         "(deliver, drop, delay, duplicate, reorder) in an adversarial phase followed by a fair phase, reno/cubic x QUIC v1/v2; "
         "plus fixed scripts with every single-fault placement.  distinct = distinct scenario description; non-trivial = "
         "stream bytes were written and datagrams were exchanged after the handshake.  Every run is checked by the "
-        "implementation oracle and projected per stream and direction to a NetSys step trace replayed in the extracted model.",
+        "implementation oracle and projected per stream and direction to a NetSys step trace replayed in the extracted model.  "
+        "halves / halves-live: random schedules of every NetSys step kind (resets, duplicates, disabled steps) on the real "
+        "QuicStreamSender + QuicStreamReceiver, compared step by step with exec_netsys; halves-live appends the continuation "
+        "computed by the extracted Coq function live_complete and requires it to complete the stream on the real halves.",
         {"single_fault_placements": exhaustive,
          "traces_validated_against_impl": suite.stats["stream_traces_replayed"],
          "liveness_note": "completion after the fair phase is observed on these runs, not proved for the real timers"})
@@ -941,6 +1305,9 @@ def run(ctx):
 def replay(ctx, rep):
     _quiet_logs()
     sc = rep["case"]
+    if isinstance(sc, dict) and "ops" in sc and "script" not in sc:       # function-level case (halves / halves-live)
+        got = core.run_model("exec_netsys", [hv_encode(sc)], shards=1)[0] if ctx.build and os.path.exists(core.DRIVER) else None
+        return {"oracle": hv_oracle(sc), "impl_output": hv_impl(sc), "model_output": got}
     r = run_scenario(sc)
     res = {"oracle": oracle(r), "terminated": r.terminated, "datagrams": r.n_datagrams, "virtual_s": round(r.elapsed, 3),
            "api_exceptions": r.api_exceptions, "streams": {}}
